@@ -1180,8 +1180,9 @@ A replace-around step that applies *is* a plain replace of `[from, to)` by its f
 plain replaces; each is again the replace-around step it came from because the partner only touched tokens
 outside `[from, to]` (`around_again_same`, `around_again_shifted`: the gap is cut again as the same closed
 slice, the structure checks read the same tokens).  The guard is `commuteGuard` on `(from, to, slice)` of
-both steps (the filled slices have the open-start depths of the steps' slices).  False without a guard
-(`commute_around_around_needs_guard` below). -/
+both steps (the filled slices have the open-start depths of the steps' slices).  False without a guard: a
+replace-around step is a plain replace there, and `commute_needs_guard` is the counterexample for plain replaces (the
+harness counts the guard-false pairs of two replace-around steps in which an order fails: `guard-around-around:fails`). -/
 
 theorem apply_replace_norm (S : Schema) (d da : Node) (f t : Nat) (sl : Slice) (b : Bool)
     (hn : fnorm d.kids = true) (hsn : fnorm sl.content = true)
